@@ -80,6 +80,20 @@ func selftestHooks(r *Run, report func(name string, ok bool, detail string)) {
 		}
 	}
 	report("the same trace with one read result altered is rejected", done && !validate("alter", altered), "")
+	// radix layer: the emitted transitions replay cleanly; with one prescribed result falsified the replay reports it
+	before := len(r.captured)
+	small := []string{"/a", "/ab", "/a/{x}", "a.b/a"}
+	runRadixPool(r, "selftest-ok", small, 4, rand.New(rand.NewSource(1)))
+	report("MC_Radix transitions replay on the real tree without difference", len(r.captured) == before && r.getCov("radix_structural_differences") == 0,
+		fmt.Sprintf("%d steps", r.getCov("radix_steps_replayed")))
+	radixTamper = func(e *radixEdge) {
+		if e.Op.Name == "Insert" && e.Op.Err == "exist" {
+			e.Op.Err = "ok"
+		}
+	}
+	runRadixPool(r, "selftest-bad", small, 4, rand.New(rand.NewSource(1)))
+	radixTamper = nil
+	report("a falsified result class in an MC_Radix transition is reported", len(r.captured) > before, "")
 	_ = fox.VerifLoad
 	_ = os.Getenv
 	_ = filepath.Join
